@@ -1,0 +1,7 @@
+//go:build !verif
+
+package queryexecutor
+
+import "github.com/ipfs/go-graphsync"
+
+func verifAt(event string, requestID graphsync.RequestID) {}
